@@ -1,5 +1,5 @@
 use crate::{
-    error::{ComputeError, ExecError, MemoryError, OpError, OpResult},
+    error::{ComputeError, ExecError, MemoryError, OpError, OpResult, OutOfGasError},
     Access, Gas, GasLimit, LazyCache, Memory, Op, OpAccess, OpGasCost, Repeat, Stack, StateReads,
     Vm,
 };
@@ -127,6 +127,17 @@ where
         .collect();
 
     let oks = results.map_err(|e| OpError::Compute(ComputeError::Exec(Box::new(e))))?;
+
+    // The children ran concurrently, each against the whole remaining budget: their
+    // joined total must fit into it as well (and must not overflow).
+    oks.iter()
+        .try_fold(0, |sum: Gas, (gas, ..)| sum.checked_add(*gas))
+        .filter(|&sum| sum <= gas_limit.total)
+        .ok_or(OutOfGasError {
+            spent: 0,
+            op_gas: oks.iter().fold(0, |sum: Gas, (gas, ..)| sum.saturating_add(*gas)),
+            limit: gas_limit.total,
+        })?;
 
     // Process compute program results.
     let (pc, total_gas, halt) = compute_effects(memory, pc, halt, oks)?;
